@@ -110,8 +110,8 @@ pub fn stages_for(prop: &str, tier: Tier) -> Option<Vec<Stage>> {
     let q = tier == Tier::Quick;
     let st = |world: &'static str, quick: u64, thorough: u64| Stage { world, runs: runs_override(if q { quick } else { thorough }), sweep: false };
     Some(match prop {
-        "C13" => vec![st("parser", 1_000_000, 20_000_000)],
-        "C14" => vec![st("parser", 1_000_000, 20_000_000)],
+        "C13" => vec![st("parser", 4_000_000, 40_000_000)],
+        "C14" => vec![st("parser", 4_000_000, 40_000_000)],
         "C01" => vec![
             st("parser", 400_000, 8_000_000),
             st("splits", 600_000, 12_000_000),
@@ -127,18 +127,18 @@ pub fn stages_for(prop: &str, tier: Tier) -> Option<Vec<Stage>> {
         ],
         "C15" | "C11" => {
             let sweep_len = <crate::worlds::byvalue::ByValueWorld as World>::sweep_len();
-            vec![Stage { world: "byvalue", runs: sweep_len, sweep: true }, st("byvalue", 600_000, 12_000_000)]
+            vec![Stage { world: "byvalue", runs: sweep_len, sweep: true }, st("byvalue", 3_000_000, 40_000_000)]
         }
-        "C07" => vec![st("chars", 2_000_000, 40_000_000)],
-        "C06" => vec![st("splits", 2_000_000, 40_000_000)],
+        "C07" => vec![st("chars", 6_000_000, 60_000_000)],
+        "C06" => vec![st("splits", 6_000_000, 60_000_000)],
         "C09" => vec![
-            st("ranges_u8", 400_000, 8_000_000), st("ranges_i8", 400_000, 8_000_000), st("ranges_char", 300_000, 6_000_000),
-            st("ranges_u16", 100_000, 2_000_000), st("ranges_i16", 100_000, 2_000_000), st("ranges_u32", 100_000, 2_000_000),
-            st("ranges_i32", 100_000, 2_000_000), st("ranges_u64", 100_000, 2_000_000), st("ranges_i64", 100_000, 2_000_000),
-            st("ranges_u128", 100_000, 2_000_000), st("ranges_i128", 100_000, 2_000_000), st("ranges_usize", 100_000, 2_000_000),
-            st("ranges_isize", 100_000, 2_000_000),
+            st("ranges_u8", 1_200_000, 12_000_000), st("ranges_i8", 1_200_000, 12_000_000), st("ranges_char", 900_000, 9_000_000),
+            st("ranges_u16", 300_000, 3_000_000), st("ranges_i16", 300_000, 3_000_000), st("ranges_u32", 300_000, 3_000_000),
+            st("ranges_i32", 300_000, 3_000_000), st("ranges_u64", 300_000, 3_000_000), st("ranges_i64", 300_000, 3_000_000),
+            st("ranges_u128", 300_000, 3_000_000), st("ranges_i128", 300_000, 3_000_000), st("ranges_usize", 300_000, 3_000_000),
+            st("ranges_isize", 300_000, 3_000_000),
         ],
-        "C08" => vec![st("slices_u8", 1_200_000, 24_000_000), st("slices_zst", 400_000, 8_000_000), st("slices_big", 400_000, 8_000_000)],
+        "C08" => vec![st("slices_u8", 4_000_000, 40_000_000), st("slices_zst", 1_500_000, 15_000_000), st("slices_big", 1_500_000, 15_000_000)],
         _ => return None,
     })
 }
